@@ -1,7 +1,7 @@
 (* C16 — session table hygiene: dead ids are inert, sessions isolated, nothing leaks.  Model: theories/Server.v. *)
 From Coq Require Import NArith List Bool.
 Import ListNotations.
-From EIO Require Import Server ServerInv ServerProofs ServerCor.
+From EIO Require Import Server ServerInv ServerProofs ServerCor ServerUpg ServerSvc ServerIso.
 Open Scope N_scope.
 
 (* send() to an id that is not in the table is a silent no-op: the whole state is unchanged, nothing is emitted *)
@@ -26,7 +26,41 @@ Theorem c16_ids_never_reused : forall cfg ops,
   let '(s, acc) := run_sched cfg ops (init cfg) [] in forall i ss, alookup i (store s) = Some ss -> i < nsid s.
 Proof. exact ids_never_reused. Qed.
 
+(* every reachable state, every schedule: an id in the session table has a record and was issued by this server *)
+Theorem c16_table_ids_have_records : forall cfg ops,
+  let s := fst (run_sched cfg ops (init cfg) []) in
+  forall i, nmem i (table s) = true -> alookup i (store s) <> None /\ i < nsid s.
+Proof. exact table_ids_have_records. Qed.
+
+(* the visit of the monitor to a session that has ended removes its entry from the table and touches no other entry; together with
+   c07_monitor_never_dies (the monitor keeps visiting) and c07_clock_honours_timers (no visit is skipped) every ended session
+   leaves the table at the monitor's next visit to it *)
+Theorem c16_monitor_visit_reaps_closed : forall cfg fuel me i r iv s, s_closed (cur i s) = true ->
+  table (stof (svc_continue cfg fuel me (i :: r) iv s)) = nrem i (table s).
+Proof. exact visit_closed_reaps. Qed.
+
+(* sessions are isolated: a step that runs on behalf of one session never touches the record (queue, flags, counters, user data)
+   of any other session - whatever the packets carry and whatever the handlers of its messages do (send, disconnect, raise).
+   (i) its tasks: the long poll, the WebSocket handler and writer, the heartbeat, a message handler, a close of it *)
+Theorem c16_task_isolated : forall cfg me e i s, session_of (t_task e) = Some i ->
+  forall j, j <> i -> cur j (stof (run_task cfg me e s)) = cur j s.
+Proof. exact task_isolated. Qed.
+(* (ii) a request that names it: poll, post, upgrade *)
+Theorem c16_request_isolated : forall cfg me r q i s,
+  decision_session (decide cfg q (valof (lookup_view cfg q s))) = Some i ->
+  forall j, j <> i -> cur j (stof (handle_request cfg me r q s)) = cur j s.
+Proof. exact request_isolated. Qed.
+(* (iii) send / disconnect(sid) / transport / get_session / save_session for it *)
+Theorem c16_api_isolated : forall cfg me a x i s, api_session x = Some i ->
+  forall j, j <> i -> cur j (stof (run_api cfg me a x s)) = cur j s.
+Proof. exact api_isolated. Qed.
+
 Print Assumptions c16_dead_send_noop.
 Print Assumptions c16_closed_send_noop.
 Print Assumptions c16_dead_api_keyerror.
 Print Assumptions c16_ids_never_reused.
+Print Assumptions c16_table_ids_have_records.
+Print Assumptions c16_monitor_visit_reaps_closed.
+Print Assumptions c16_task_isolated.
+Print Assumptions c16_request_isolated.
+Print Assumptions c16_api_isolated.
